@@ -78,6 +78,24 @@ class Ctx:
                     return k
         return value
 
+    def peek(self, v):
+        """A value of `v` consistent with the current path condition, WITHOUT constraining the path (no tree
+        node is created): used to pick a representative of the path's equivalence class."""
+        if not self.symbolic or not hasattr(v, "var"):
+            return v
+        from crosshair.statespace import context_statespace
+        from crosshair.tracers import NoTracing
+        import z3
+        with NoTracing():
+            space = context_statespace()
+            if space.solver.check() != z3.sat:
+                from crosshair.util import UnknownSatisfiability
+                raise UnknownSatisfiability("peek")
+            val = space.solver.model().evaluate(v.var, model_completion=True)
+            if z3.is_int_value(val):
+                return val.as_long()
+            return z3.is_true(val)
+
     def untraced(self):
         """Run a block on real (un-modelled) objects: only for code whose inputs are all concrete."""
         if self.symbolic:
